@@ -116,12 +116,14 @@ pub fn is_avx512_available() -> bool {
         return false;
     }
 
-    if cfg!(target_feature = "avx512f") {
+    if cfg!(all(target_feature = "avx512f", target_feature = "avx512bw")) {
         return true;
     }
 
     #[cfg(feature = "std")]
-    if std::arch::is_x86_feature_detected!("avx512f") {
+    if std::arch::is_x86_feature_detected!("avx512f")
+        && std::arch::is_x86_feature_detected!("avx512bw")
+    {
         return true;
     }
 
